@@ -53,6 +53,9 @@ impl Dewey {
 impl PkgName {
 //@ import pkgname : impl PkgName fn new
 //@ import pkgname : impl PkgName fn pkgversion
+//@ import pkgname : impl PkgName fn pkgbase
+//@ import pkgname : impl PkgName fn pkgname
+//@ import pkgname : impl PkgName fn pkgrevision
 }
 
 //@ extract src/pattern.rs : enum PatternType
